@@ -42,7 +42,7 @@ ANGLE_FIELDS = {
 FLOATS = [0.0, 5e-324, 1e-300, 0.1, 1.0 / 3.0, math.pi / 7.0, 1e300, -2.5]
 ANGLES = FLOATS + [math.pi, 2 * math.pi, 1e-12, math.radians(10.0), 0.7853981633974483]
 INTS = [0, 1, 2**31, 10**12]
-STRS = ["plain", 'q"uote', "it's", "back\\slash", "new\nline", "tab\tbed", "é", "日本", "x" * 300, ""]
+STRS = ["plain", 'q"uote', "it's", "back\\slash", "new\nline", "tab\tbed", "é", "日本", "x" * 300, "", "windows\r\nnewline", "lone\rreturn", "trailing\n", "\r\n", "  spaces  ", "#hash = [not a table]"]
 
 
 def field_alphabets():
@@ -210,6 +210,11 @@ def judge_unit(path, canon, unit, form, v):
     elif form == "float":
         arg = float(v)
         exp = float(v)
+    elif form.startswith("np."):
+        # a bare NumPy scalar is a bare number too
+        t = getattr(np, form[3:])
+        arg = t(v) if "float" in form else t(int(v) % 200)
+        exp = float(arg)
     else:
         arg = int(v)
         exp = float(int(v))
@@ -367,7 +372,7 @@ def run(ctx):
                             n_u += 1
                             for c, e, o in judge_unit(p, canon, unit, form, v):
                                 ctx.violation(c, {"kind": "unit", "path": p, "canon": canon, "unit": unit, "form": form, "v": v}, e, o)
-                for form in ("float", "int"):
+                for form in ("float", "int", "np.float64", "np.float32", "np.int64", "np.int32", "np.uint8"):
                     for v in UVALS:
                         ctx.tick(1, ("bare", p, form))
                         n_u += 1
